@@ -4,7 +4,7 @@
  2. translator status (target `tlspolicy`);
  3. exhaustive differential evaluation of the REAL tcpcl.session code against
     the generated Coq definitions over the full decision table
-      contact:  role x tls_enable x peer CAN_TLS x require_tls x handshake result
+      contact:  role x tls_enable x peer flags octet (reserved bits too) x require_tls x handshake result
       authn:    role x address family x every SAN subset (and no SAN extension)
                 x require_host x require_node
     with real X.509 certificates and a simulated secure() (impl_C15.py);
@@ -15,6 +15,7 @@ import itertools
 import json
 import os
 import sys
+import time
 
 from common import Check, CoqError, coq_list, coq_bool, coq_opt
 import impl_C15 as I
@@ -27,11 +28,14 @@ chk = Check('C15', level='proof', description=__doc__)
 
 
 # ============================================================ row enumeration
+PEER_FLAGS = (0x00, 0x01, 0x02, 0x03, 0x05, 0x81, 0xfe, 0xff)  # CAN_TLS is bit 0; the other bits are reserved
+
+
 def contact_rows():
     rows = []
     for (role, ena, peer, req, hs) in itertools.product(
-            ('passive', 'active'), (False, True), (False, True), (None, True, False), (True, False)):
-        rows.append(dict(kind='contact', role=role, tls_enable=ena, peer_can=peer, require_tls=req, hs_ok=hs))
+            ('passive', 'active'), (False, True), PEER_FLAGS, (None, True, False), (True, False)):
+        rows.append(dict(kind='contact', role=role, tls_enable=ena, peer_flags=peer, require_tls=req, hs_ok=hs))
     return rows
 
 
@@ -110,9 +114,17 @@ def coq_authn(row):
         nums(ab['ips']), nums(ab['dnss']), nums(ab['uris']), coq_bool(ab['rh']), coq_bool(ab['rn']))
 
 
-def coq_contact(row):
-    return '%s, %s, %s, %s' % (coq_opt(row['require_tls'], coq_bool, 'bool'), coq_bool(row['tls_enable']),
-                               coq_bool(row['peer_can']), coq_bool(row['hs_ok']))
+def local_flags(row, obs):
+    ''' The flags octet of the local contact header: as seen on the wire; when the connection was closed
+    before the header left the buffer, what the configuration says it would have been. '''
+    if obs['contact_flags']:
+        return obs['contact_flags'][0]
+    return 1 if row['tls_enable'] else 0
+
+
+def coq_contact(row, obs):
+    return '%s, %d, %d, %s' % (coq_opt(row['require_tls'], coq_bool, 'bool'), local_flags(row, obs),
+                               row['peer_flags'], coq_bool(row['hs_ok']))
 
 
 PRELUDE = '''
@@ -122,10 +134,10 @@ Definition run_authn (c : bool * N * N * N * list N * list N * list N * bool * b
   (authn_refuses p nm ad nd ips dnss uris rh rn,
    (let '(a, (b, d)) := authn_results p nm ad nd ips dnss uris in [mres_code a; mres_code b; mres_code d],
     policy_okb ad (known_dns_name p nm ad) nd ips dnss uris rh rn)).
-Definition run_contact (c : option bool * bool * bool * bool * bool * bool) :=
-  let '(req, tc, pc, ok, obs_went_on, obs_secured) := c in
-  (tls_attempt tc pc, (outcome_code (contact_outcome req (tls_attempt tc pc) ok),
-    (if obs_went_on then tls_use_okb req tc pc obs_secured else true))).
+Definition run_contact (c : option bool * N * N * bool * bool * bool) :=
+  let '(req, tf, pf, ok, obs_went_on, obs_secured) := c in
+  (tls_attempt tf pf, (outcome_code (contact_outcome req (tls_attempt tf pf) ok),
+    (if obs_went_on then tls_use_okb req (offers_tls tf) (offers_tls pf) obs_secured else true))).
 Definition run_match (c : option N * list N) := mres_code (match_id (fst c) (snd c)).
 '''
 
@@ -228,14 +240,17 @@ def oracle_authn(row, obs):
 
 def oracle_contact(row, obs):
     out = []
-    offers = obs['contact_offers_tls']
-    local_offer = offers[0] if offers else bool(row['tls_enable'])
-    if offers and local_offer != bool(row['tls_enable']):
-        out.append(('contact/offer-differs-from-config', 'contact header CAN_TLS=%s with tls_enable=%s' % (local_offer, row['tls_enable'])))
-    both = bool(local_offer and row['peer_can'])
+    # RFC 9174 4.2: a contact header offers TLS iff bit 0 (CAN_TLS) of its flags octet is set; other bits are reserved
+    wire = obs['contact_flags']
+    local_offer = bool(wire[0] & 1) if wire else bool(row['tls_enable'])
+    if wire and local_offer != bool(row['tls_enable']):
+        out.append(('contact/offer-differs-from-config', 'contact header flags=0x%02x with tls_enable=%s' % (wire[0], row['tls_enable'])))
+    peer_offer = bool(row['peer_flags'] & 1)
+    both = bool(local_offer and peer_offer)
     req = row['require_tls']
     went_on = obs['sessinit_clear'] or obs['sessinit_tls'] or obs['established']
-    tag = 'role=%s/offer=%s/peer=%s/require=%s/handshake=%s' % (row['role'], row['tls_enable'], row['peer_can'], req, 'ok' if row['hs_ok'] else 'fail')
+    tag = 'role=%s/offer=%s/peer_flags=0x%02x/require=%s/handshake=%s' % (
+        row['role'], row['tls_enable'], row['peer_flags'], req, 'ok' if row['hs_ok'] else 'fail')
     if obs['secure_calls'] > 0 and not both:
         out.append(('contact/tls-attempted-without-both-offers/' + tag, 'TLS handshake started although not both contact headers offer TLS'))
     if went_on:
@@ -244,7 +259,7 @@ def oracle_contact(row, obs):
             out.append(('contact/sessinit-on-both-channels/' + tag, 'SESS_INIT both in the clear and under TLS'))
         if obs['sessinit_clear'] and both:
             out.append(('contact/clear-sessinit-although-both-offer/' + tag, 'SESS_INIT sent in the clear although both sides offer TLS'))
-        if not py_tls_use_ok(req, local_offer, row['peer_can'], secured):
+        if not py_tls_use_ok(req, local_offer, peer_offer, secured):
             if secured != both:
                 out.append(('contact/tls-use-differs-from-offers/' + tag, 'proceeded with secure=%s but both-offer=%s' % (secured, both)))
             elif req is True:
@@ -265,6 +280,7 @@ def oracle_contact(row, obs):
 # ============================================================ evaluation
 reported = set()
 viol_counts = {}
+PHASES = {}
 
 
 def report(sig, what, row):
@@ -327,27 +343,36 @@ def run_rows(rows):
     authn = [r for r in rows if r['kind'] == 'authn']
     mids = [r for r in rows if r['kind'] == 'match_id']
 
+    t_start = time.time()
     obs_contact = [I.run_contact_row(row) for row in contact]
     obs_authn = [(I.run_authn_row(row, 'e2e'), I.run_authn_row(row, 'direct')) for row in authn]
     obs_mid = [I.run_match_id(row['ref'], row['cert']) for row in mids]
+    PHASES['real_code_s'] = round(time.time() - t_start, 1)
+    t_start = time.time()
 
     def went_on(obs):
         return bool(obs['sessinit_clear'] or obs['sessinit_tls'] or obs['established'])
 
     mod_contact = mod_authn = mod_mid = None
     try:
-        mod_contact = chk.coq_eval('contact', [], [
-            '(%s, %s, %s)' % (coq_contact(row), coq_bool(went_on(obs)), coq_bool(obs['secure']))
-            for (row, obs) in zip(contact, obs_contact)], 'run_contact', prelude=PRELUDE)
-        mod_authn = chk.coq_eval('authn', [], [coq_authn(r) for r in authn], 'run_authn', prelude=PRELUDE)
-        mod_mid = chk.coq_eval('matchid', [], [
-            '(%s, %s)' % (coq_opt(MATCH_IDS.get(r['ref']), lambda v: '%d' % v, 'N'),
-                          coq_list(['%d' % MATCH_IDS[x] for x in (r['cert'] or [])], 'N')) for r in mids],
-            'run_match', prelude=PRELUDE)
+        # ONE batch of shards for the three tables (every case is a closed term `run_xxx input`, the evaluated
+        # function is the identity), one model evaluation per distinct model input (v4/v6 and TLS/no-TLS rows share them)
+        t_contact = ['(run_contact (%s, %s, %s))' % (coq_contact(row, obs), coq_bool(went_on(obs)), coq_bool(obs['secure']))
+                     for (row, obs) in zip(contact, obs_contact)]
+        t_authn = ['(run_authn %s)' % coq_authn(r) for r in authn]
+        t_mid = ['(run_match (%s, %s))' % (coq_opt(MATCH_IDS.get(r['ref']), lambda v: '%d' % v, 'N'),
+                                           coq_list(['%d' % MATCH_IDS[x] for x in (r['cert'] or [])], 'N')) for r in mids]
+        uniq = sorted(set(t_contact + t_authn + t_mid))
+        pos = dict((term, idx) for (idx, term) in enumerate(uniq))
+        vals = chk.coq_eval('table', [], uniq, '(fun x => x)', prelude=PRELUDE, chunk=max(120, (len(uniq) + 7) // 8))
+        mod_contact = [vals[pos[term]] for term in t_contact]
+        mod_authn = [vals[pos[term]] for term in t_authn]
+        mod_mid = [vals[pos[term]] for term in t_mid]
     except CoqError as err:
         res.model_err = str(err)[:600]
         mod_contact = mod_authn = mod_mid = None
 
+    PHASES['model_eval_s'] = round(time.time() - t_start, 1)
     # ---- contact-header / TLS-use table
     for (idx, (row, obs)) in enumerate(zip(contact, obs_contact)):
         chk.count('contact.role', row['role'])
@@ -366,7 +391,8 @@ def run_rows(rows):
                     or obs['secure_calls'] > 1 or (obs['secure_calls'] == 1 and not model['attempt']) \
                     or (model['proceeds'] and model['secured'] and obs['secure_calls'] != 1):
                 res.differ(row, dict(impl, secure_calls=obs['secure_calls']), model)
-            py_ok = (not went_on(obs)) or py_tls_use_ok(row['require_tls'], row['tls_enable'], row['peer_can'], obs['secure'])
+            py_ok = (not went_on(obs)) or py_tls_use_ok(row['require_tls'], bool(local_flags(row, obs) & 1),
+                                                        bool(row['peer_flags'] & 1), obs['secure'])
             if bool(spec_ok) != py_ok:
                 res.spec_differ(row, dict(tls_use_okb=bool(spec_ok)), dict(tls_use_ok=py_ok, went_on=went_on(obs), secured=obs['secure']))
         chk.case(ident=('contact', json.dumps(row, sort_keys=True)), nontrivial=nontrivial,
@@ -473,7 +499,9 @@ def main():
         chk.finish(rule='replay of exactly one stored row through the real code, the model and the oracle')
 
     quick = chk.quick()
+    t_props = time.time()
     props_ok = chk.coq_props()
+    PHASES['coq_props_s'] = round(time.time() - t_props, 1)
     (tr_ok, tr_err) = chk.translate_ok('tlspolicy')
 
     corpus = load_corpus()
@@ -529,6 +557,7 @@ def main():
         chk.trusted_base.append('coqchk -o on DTN.Props.C15: ' + ' '.join(out.split())[-300:])
 
     chk.coverage['exhaustive'] = True
+    chk.coverage['phase_wall_s'] = PHASES
     # none standing: C15_authn is proved at full strength since repository commit 55f212b; the witnesses of the former
     # host-authentication defect (harness/corpus/C15_host_authn.json) are run first and must satisfy the oracle
     chk.coverage['refuted_or_partial_theorems'] = []
@@ -536,7 +565,7 @@ def main():
     chk.coverage['oracle_failures_by_signature'] = dict(sorted(viol_counts.items()))
     chk.coverage['translator'] = dict(ok=tr_ok, error=tr_err)
     chk.finish(
-        rule=('exhaustive enumeration, no sampling: contact table = role{passive,active} x tls_enable x peer CAN_TLS x require_tls{None,True,False} '
+        rule=('exhaustive enumeration, no sampling: contact table = role{passive,active} x tls_enable x peer flags octet{00,01,02,03,05,81,fe,ff} (injected as raw octets) x require_tls{None,True,False} '
               'x handshake{ok,fail}; authentication table = address family{v4; v6 (quick tier: v6 only for certificates with at most 2 SANs)} x role{passive, active by address, active by name} x every subset of '
               '{matching IP, other IP, matching DNS, other DNS, matching URI, other URI} SANs + SAN extension without any of these + no SAN extension '
               'x require_host x require_node, plus the full SAN table again with an EMPTY announced node ID and with an EMPTY connect name, certificates with empty '
